@@ -165,7 +165,11 @@ pub fn enter<'a>(arc: &'a Arc<Mutex<Fs>>, ctx: EnterCtx<'a>) -> FsEnterGuard<'a>
     }
 }
 
-fn fire_corruption(event: &FsCorruption) {
+/// Report a silent-corruption event to the hook installed by [`enter`]
+/// (a no-op when none is installed). `pub` so that sister crates which
+/// execute reads against `Fs` themselves (`turmoil-io-uring`) report
+/// corruption exactly like the shims do.
+pub fn fire_corruption(event: &FsCorruption) {
     if let Some(hook) = CURRENT_CORRUPTION.with(|c| c.get()) {
         // SAFETY: pointer is valid while the guard that installed it
         // is alive (single-threaded; we only read on the same thread).
